@@ -8,6 +8,24 @@ sys.path.insert(0, str(V))
 from tools.manifest_table import CHECKS, NOT_APPLICABLE  # noqa: E402
 
 props = [json.loads(l)["id"] for l in (V / "properties.jsonl").read_text().splitlines() if l.strip()]
+# rules added after the seeded rounds (DESIGN.md section 9.6), appended to the level text of the properties that run them
+TRUTHY = " Accessor level: the nodata value is tested with `is None`, never for truth, and an explicit argument is replaced only when it is None (R-TRUTHY); " \
+         "the data argument of each site is the accessor's object through value-preserving steps only (R-BIND provenance)."
+EXTRA = {
+    "C02": TRUTHY + " The smoothers never store into their input series (R-READONLY).",
+    "C03": TRUTHY, "C04": TRUTHY, "C05": TRUTHY + " The GCV kernels never store into their input series (R-READONLY).",
+    "C06": " Every solver weight vanishes outside the validity mask (R-MASK: the sanitised placeholder does not shift with the series); ws2d is one straight-line algorithm.",
+    "C07": TRUTHY, "C08": TRUTHY + " Every pixel/group iteration of the SPI drivers leaves a defined value in the output (nodata-prefilled or must-write per iteration).",
+    "C09": TRUTHY + " Explicit casts of kernel arguments equal the element type the kernel declares.",
+    "C10": TRUTHY + " The kernel without nodata handling is selected exactly when the nodata attribute is None.",
+    "C12": " No gufunc signature declares a contiguous layout (R-LAYOUT: strided views are passed to the inner loops).",
+    "C13": " No gufunc signature declares a contiguous layout (NB-LAYOUT).",
+    "C15": TRUTHY + " The time-first arm labels its result with the remaining dims in order and every coordinate but time.",
+    "C16": " The NaN->nodata substitution reaches both kernel sites unconditionally.",
+    "C17": TRUTHY + " mean_grp accessor: group ids are converted to the kernel's declared element type, num_groups is the number of distinct ids, label length is validated.",
+    "C19": " begin/end labels are tested with `is None`, never for truth (0 is a legitimate label).",
+    "C20": " The gufunc signature declares arbitrary strides for every array (R-LAYOUT).",
+}
 checks = []
 for pid in props:
     if pid not in CHECKS:
@@ -22,7 +40,7 @@ for pid in props:
         "evidence_file": f"evidence/{pid}.json",
         "replay_cmd_template": f"./check {pid} --replay {{path}}",
         "engine": "sa",
-        "level_claimed": {"category": c["category"], "text": c["text"], "design_ref": f"DESIGN.md section 4 {pid}"},
+        "level_claimed": {"category": c["category"], "text": c["text"] + EXTRA.get(pid, ""), "design_ref": f"DESIGN.md section 4 {pid}"},
         "level_note": c["note"],
         "technique": c["technique"],
     })
